@@ -274,11 +274,22 @@ func (x *prioExec) injectStop(op POp) {
 	} else {
 		var second atomic.Bool
 		second.Store(variant != 1)
+		// whichever Stop() call returns, at that very moment no Handle call may be running
+		// (looked at inside the calling goroutine, before anything else gets to run)
+		atReturn := func() {
+			if x.sc.simple() {
+				if n := x.sys.entered.Load() - x.sys.returned.Load(); n > 0 {
+					x.runningAtStopReturn.Store(n)
+				}
+			}
+		}
 		if variant == 1 {
 			x.wg.Add(1)
 			go func() {
 				defer x.wg.Done()
+				time.Sleep(time.Duration(op.D%7) * time.Nanosecond) // overlaps the first call while it is in progress
 				x.sys.stop()
+				atReturn()
 				second.Store(true)
 			}()
 		}
@@ -289,6 +300,7 @@ func (x *prioExec) injectStop(op POp) {
 		go func() {
 			defer x.wg.Done()
 			x.sys.stop()
+			atReturn()
 			for !second.Load() {
 				time.Sleep(time.Nanosecond)
 			}
@@ -319,6 +331,9 @@ func (x *prioExec) injectStop(op POp) {
 	x.pollErr()
 	if !x.errClosed {
 		x.fail("C16", "stop-not-terminated", "%s returned but Err() is not closed", op.K)
+	}
+	if n := x.runningAtStopReturn.Load(); n > 0 {
+		x.fail("C16", "handle-running-when-stop-returned", "a Stop() call returned while %d Handle call(s) were still running (two overlapping Stop() calls: %v)", n, variant == 1)
 	}
 	// after completion nothing more may be written to the output / no Handle call runs
 	if x.sc.simple() {
